@@ -77,6 +77,7 @@ class World(object):
         }
         und = HObj("list", kind="list", items=None, label="undefined_steps")
         und.base = "undef0"
+        und.open = True         # what earlier scenarios left in it is an input
         if real_class is not None:
             fields["_undefined_steps"] = st.alloc(und)
             fields["hooks"] = st.alloc(HObj("HooksStub", {}, label="hooks"))
